@@ -1474,7 +1474,7 @@ func (u *Unit) callAssertions(st *State, fr *Frame, site ssa.Instruction, desigs
 		// resolved in the nearest enclosing frame that lexically belongs to it (the
 		// function itself or a literal nested in it), not in the frame of a helper
 		// without contract that is being executed in place
-		env.fr = lexicalFrame(fr, top)
+		env.fr = fr // identifiers resolve innermost-first through the run-time frame chain (Env.ident)
 		env.key = fmt.Sprintf("%s.ac%d", u.Name, i)
 		if fr == top {
 			for n, v := range env.vars {
